@@ -212,6 +212,29 @@ def run_task(task, acc):
                         acc.validated += 10
                     for clause, detail in bad:
                         acc.violation(clause, case2, detail)
+            # query, edit in place, query again (C15_t: a remembered is_formatting_valid() answer that `+=` and
+            # remove_formatting did not drop): the flags after the edit must be those of the settings then in use
+            used0 = sorted(set(c for cell in model.alpha_codes(v)[1] for c in cell))
+            edits = [['icat', ['ctor', 'z', '[xm']], ['icat', ['ctor', 'z', '[38']], ['icat', ['lit', 'z']],
+                     ['assign', 'q'], ['clip', 0, 0, True]]
+            edits += [['remove', '[' + c, 0, len(v)] for c in used0 if not ref_parsable(c)][:3]
+            for ed in edits:
+                h3 = h + [['read'], ed]
+                case3 = {'kind': 'pool', 'hist': h3}
+                acc.current = case3
+                acc.transitions += 4
+                acc.counters['query_edit_query'] += 1
+                try:
+                    bad = [b for b in check_pool_value(build(h3, reads=False), h3)
+                           if b[0] in ('formatting-valid', 'formatting-parsable', 'render-wellformed')]
+                except env.HarnessError:
+                    raise
+                except Exception as e:  # noqa
+                    bad = [('pool-raises', '%s after %s: %s: %s' % (ed, h, type(e).__name__, e))]
+                if not bad:
+                    acc.validated += 4
+                for clause, detail in bad:
+                    acc.violation(clause, case3, detail)
             used = set(c for cell in model.alpha_codes(v)[1] for c in cell)
             if any(not ref_parsable(c) for c in used):
                 acc.counters['states_with_unparsable'] += 1
